@@ -8,8 +8,8 @@ import (
 )
 
 // writeRec runs the real `crd write` on the YAML rendering of d and projects the outcome.
-func writeRec(c *Ctx, d Doc, fl Flags, tracks int, alsoSingle bool) Rec {
-	args := append([]string{"write", "--track", fmt.Sprint(tracks)}, fl.Args()...)
+func writeRec(c *Ctx, d Doc, fl Flags, tracks int, alsoSingle bool, extra ...string) Rec {
+	args := append(append([]string{"write", "--track", fmt.Sprint(tracks)}, fl.Args()...), extra...)
 	r := c.crd(args, d.YAML())
 	f := smf.Parse(r.Stdout)
 	rec := Rec{"kind": "write", "doc": d.Abstract(), "flags": fl.Abstract(), "tracks": tracks,
@@ -32,6 +32,9 @@ func writeExec(alsoSingle bool) func(c *Ctx, k Case) []Rec {
 		tr := ci(k, "tracks")
 		if tr == 0 {
 			tr = 1
+		}
+		if cb(k, "debug") {
+			return []Rec{writeRec(c, caseToDoc(k["doc"]), caseToFlags(k["flags"]), tr, alsoSingle, "--debug")}
 		}
 		return []Rec{writeRec(c, caseToDoc(k["doc"]), caseToFlags(k["flags"]), tr, alsoSingle)}
 	}
@@ -201,7 +204,7 @@ func init() {
 					if i >= 5 && !c.quick() && (i+j)%2 == 1 { // thorough: half of the (doc, N) pairs of the random part
 						continue
 					}
-					cases = append(cases, Case{"doc": d, "flags": Flags{}, "tracks": n})
+					cases = append(cases, Case{"doc": d, "flags": Flags{}, "tracks": n, "debug": (i+j)%5 == 0})
 				}
 			}
 			return cases
